@@ -12,8 +12,9 @@ from rv import vnet, vsched
 PROPERTY = "C11"
 LEVEL = "fault_enumeration"
 RULE = ("workloads: sync calls; async calls collected after the fault; callbacks nested 3 deep; references held in both directions; "
-        "server pushing to the client; close by A / by B inside a handler / by both at once / with a before_closed hook that talks "
-        "to the peer. faults: for every workload EVERY individual transport call (poll, read, write) of either side fails once "
+        "server pushing to the client; two threads of one side waiting at once (one polling, one on the condition); a peer that does "
+        "not serve while the other side closes; close by A / by B inside a handler / by both at once / with a before_closed hook that "
+        "talks to the peer; a close request served before the end-of-stream is delivered (held delivery). faults: for every workload EVERY individual transport call (poll, read, write) of either side fails once "
         "(kinds: transport error at the call; peer vanished just before the call), every byte offset of the first 160 bytes of "
         "each direction is cut once, with EPIPE semantics on and off. distinct = (workload, side, call index, operation, kind) "
         "or (workload, direction, offset); non-trivial = the fault fired")
